@@ -114,6 +114,28 @@ pub fn vextend(lines: &mut Vec<String>, with: &Vec<String>)
     ensures final(lines)@ == old(lines)@ + with@,
 { unimplemented!() }
 
+// ---- the first-match search itself (added in the second build session): the real function, renamed so that apply_hunks_to_text keeps
+// seeing it through the contract above - which is, clause for clause, the one proved here. Only the iterator chain
+// `(lo..=hi).find(|&idx| &haystack[idx..idx + needle.len()] == needle)` is replaced (R11) by a stand-in with the chain's meaning:
+// the first idx in lo..=hi whose window equals the needle; every window it looks at must lie inside the haystack (the slice
+// expression panics otherwise), which is a proof obligation of the caller.
+#[verifier::external_body]
+pub fn first_window_eq(haystack: &[String], needle: &[String], lo: usize, hi: usize) -> (r: Option<usize>)
+    requires needle@.len() > 0, lo <= hi ==> hi + needle@.len() <= haystack@.len(),          // [find_subslice.every_window_compared_lies_inside_the_haystack]
+    ensures match r {
+        Some(i) => lo <= i <= hi && occurs_at(haystack@, needle@, i as int) && forall|j: int| lo <= j < i ==> !occurs_at(haystack@, needle@, j),
+        None => forall|j: int| lo <= j <= hi ==> !occurs_at(haystack@, needle@, j),
+    },
+{ unimplemented!() }
+
+//@@ fn crates/rip-workspace/src/patch.rs find_subslice_from rename=find_subslice_from_real name=find_subslice_from_real
+//@@ rewrite (start..=(haystack.len() - needle.len())) .find(|&idx| &haystack[idx..idx + needle.len()] == needle) ==>> first_window_eq(haystack, needle, start, haystack.len() - needle.len())
+//@@ sig
+    ensures
+        needle@.len() > 0 ==> is_first_match(haystack@, needle@, start as int, match ret { Some(i) => Some(i as int), None => None }),      // [find_subslice.first_occurrence_at_or_after_the_cursor_or_none]
+        needle@.len() == 0 ==> ret == Some(if start <= haystack@.len() { start } else { haystack@.len() as usize }),                       // [find_subslice.empty_context_needs_no_search]
+//@@ end
+
 //@@ fn crates/rip-workspace/src/patch.rs apply_hunks_to_text rules=R9 r7=0
 //@@ rewrite lines.extend_from_slice(&hunk.after); => vextend(&mut lines, &hunk.after);
 //@@ rewrite lines.splice(pos..end, hunk.after.iter().cloned()); => vsplice(&mut lines, pos, end, &hunk.after);
